@@ -12,7 +12,7 @@ DESIGN_REF = "DESIGN.md §9 C19, §12.C19"
 COQ_TARGETS = ["Properties/C19", "Pins/C19"]
 THEOREMS = [("PdfV.Properties.C19", n) for n in [
     "C19_get_set", "C19_set_ok", "C19_cid_widths", "C19_cid_widths_last_wins", "C19_widths_no_panic",
-    "C19_type0_no_panic", "C19_simple_widths", "C19_utf16_rt", "C19_cmap_read", "C19_write_tokens_standard"]]
+    "C19_type0_no_panic", "C19_simple_widths", "C19_utf16_rt", "C19_cmap_read"]]
 ANCHORS = ["font:"]
 MODES = ["widths", "cmap_write", "cmap_read", "cmap_rt", "utf16dec"]
 TRUSTED_BASE = ["coqc 8.16.1 kernel (vm_compute for table lemmas and witnesses; no native_compute)",
@@ -476,6 +476,7 @@ def text_cases(rng, tier):
         [("range", [S.BfRangeS(0xff, 0x101, "a"), S.BfRangeA(0xffff, 0xffff, ["￿"])]), ("char", [S.BfChar(0x100, "replaced")])],
         [("char", []), ("range", [])],
         [("range", [S.BfRangeS(3, 3, "ÿ")])],
+        [("range", [S.BfRangeS(0, 2, "ý"), S.BfRangeS(0x20, 0x21, "aþ")])],
         [("range", [S.BfRangeS(65535, 65535, "q"), S.BfRangeS(0, 1, "Ā")])],
     ]
     for secs in fixed:
